@@ -1,7 +1,7 @@
 import json, os, time
 from . import build
 def write(pid, tier, seed, coverage, assumptions, wall_s, violations):
-    path = os.path.join(build.ROOT, "evidence", pid + ".json")
+    path = os.path.join(build.OUT, "evidence", pid + ".json")
     os.makedirs(os.path.dirname(path), exist_ok=True)
     ev = {"property_id": pid, "tier": tier, "seed": seed, "level": "proof", "coverage": coverage,
           "assumptions": assumptions, "wall_s": round(wall_s, 1), "violations": violations}
